@@ -90,6 +90,17 @@ def namesOk (f : ASetFile) : Bool := (allNames f).all nameOk
 
 def lossy (f : ASetFile) : Bool := (allNames f).any lossyName
 
+/-- Code points outside the sub-codec that real Shift-JIS may encode (U+4E0A, U+300A, U+FF0A,
+U+4E5C, U+4E00, U+4E6E — low byte like '\n', '\\', NUL, 'n'), in UTF-8.  The model cannot encode
+them: correspondence skip; the oracle demands refusal or an exact round trip. -/
+def foreignName (n : Option Bytes) : Bool :=
+  match n with
+  | none => false
+  | some s => [[0xE4, 0xB8, 0x8A], [0xE3, 0x80, 0x8A], [0xEF, 0xBC, 0x8A], [0xE4, 0xB9, 0x9C],
+      [0xE4, 0xB8, 0x80], [0xE4, 0xB9, 0xAE]].any (fun (pat : Bytes) => hasInfix pat s)
+
+def foreign (f : ASetFile) : Bool := (allNames f).any foreignName
+
 /-- The specification judged on the implementation's output line (independent of the model). -/
 def oracle (f : ASetFile) (i : List String) : String :=
   if !shapeOk f then "ok skip out-of-domain" else
@@ -118,7 +129,7 @@ def family : Family where
     match fileOf c with
     | some f =>
       -- lossily encodable code points: the sub-codec cannot predict the bytes — correspondence skip
-      let m := if lossy f then " ".intercalate (i.drop 1) else modelOut f
+      let m := if lossy f || foreign f then " ".intercalate (i.drop 1) else modelOut f
       ((), m, oracle f i)
     | none => ((), "bad-case", "FAIL bad-case")
 
